@@ -135,9 +135,31 @@ func (s *State) VerifChanges() [][]string {
 	return r
 }
 
+// verifCopyVsys copies what sortMembers rewrites in place: the member lists
+// of the rules and of the address-groups.
+func verifCopyVsys(v *panVsys) *panVsys {
+	c := *v
+	c.Rules = nil
+	for _, r := range v.Rules {
+		rc := *r
+		rc.Source = append([]string{}, r.Source...)
+		rc.Destination = append([]string{}, r.Destination...)
+		rc.Service = append([]string{}, r.Service...)
+		c.Rules = append(c.Rules, &rc)
+	}
+	c.AddressGroups = nil
+	for _, g := range v.AddressGroups {
+		gc := *g
+		gc.Members = append([]string{}, g.Members...)
+		c.AddressGroups = append(c.AddressGroups, &gc)
+	}
+	return &c
+}
+
 // VerifRuleScripts computes, per vsys pair, the edit script the planner will
-// get from myers.Diff for the rule lists.  Sorts member lists like diffConfig
-// does (idempotent).
+// get from myers.Diff for the rule lists.  Works on copies, sorted like
+// diffConfig sorts: the configurations handed in are left as they are, so
+// that the planner itself still has to sort them.
 func VerifRuleScripts(c1, c2 deviceconf.Config) (map[string][][4]int, error) {
 	p1, _ := c1.(*PanConfig)
 	p2, _ := c2.(*PanConfig)
@@ -146,6 +168,9 @@ func VerifRuleScripts(c1, c2 deviceconf.Config) (map[string][][4]int, error) {
 		if v1 == nil || v2 == nil {
 			return nil
 		}
+		name := v1.Name
+		v1 = verifCopyVsys(v1)
+		v2 = verifCopyVsys(v2)
 		sortMembers(v1)
 		sortMembers(v2)
 		ab := rulesPairFrom(v1, v2)
@@ -154,7 +179,7 @@ func VerifRuleScripts(c1, c2 deviceconf.Config) (map[string][][4]int, error) {
 		for _, r := range s.Ranges {
 			l = append(l, [4]int{r.LowA, r.HighA, r.LowB, r.HighB})
 		}
-		res[v1.Name] = l
+		res[name] = l
 		return nil
 	})
 	return res, err
